@@ -34,6 +34,7 @@ func init() {
 }
 
 func runC03(c *Ctx) {
+	c.NotArmed("C03.copy-ordering", "wait-before-push inside each root's copy is C02.R1; discharged under C02, not duplicated here")
 	c03R1(c)
 	c03R2(c)
 	c03R3(c)
@@ -856,7 +857,11 @@ func c03R3(c *Ctx) {
 			return eval(g, c03ReturnSinks(g), depth+1)
 		}
 		for _, kind := range handled {
-			k := c01CaseCut(tests, kinds.ByKind[kind])
+			k, und := c01CaseCutP(X, tests, kinds.ByKind[kind], isMT)
+			if len(und) > 0 {
+				c.Undecided(R, xn+"|handles-"+kind, X.Pos(), "the dispatch goes through a predicate whose answer for this media type cannot be determined: "+strings.Join(und, ", "))
+				continue
+			}
 			found := false
 			for _, s := range sinks {
 				if !s.feasible(k) {
@@ -875,7 +880,7 @@ func c03R3(c *Ctx) {
 					"for a "+kind+" no artifact type is derived from the manifest's artifactType member: such a referrer is matched differently depending on whether the source supplied the descriptor field (D3b)"))
 		}
 		// image manifest: artifactType preferred, config.mediaType only as fallback when empty
-		k := c01CaseCut(tests, kinds.ByKind["image-manifest"])
+		k, _ := c01CaseCutP(X, tests, kinds.ByKind["image-manifest"], isMT)
 		var ats, cfgs, calls []c03Sink
 		for _, s := range sinks {
 			if !s.feasible(k) {
@@ -1045,7 +1050,11 @@ func c03R4(c *Ctx) {
 		}
 		sort.Strings(ks)
 		for _, kind := range ks {
-			k := c01CaseCut(tests, kinds.ByKind[kind])
+			k, und := c01CaseCutP(f, tests, kinds.ByKind[kind], isMT)
+			if len(und) > 0 {
+				c.Undecided(R, c01ClosureKey(f, "fetch-missing-annotations")+"|fetches-for-"+kind, fetches[0].Pos(), "the dispatch goes through a predicate whose answer for this media type cannot be determined: "+strings.Join(und, ", "))
+				continue
+			}
 			ok := false
 			for _, call := range fetches {
 				if c01Feasible(call, k) {
@@ -1082,6 +1091,12 @@ var c03Mutants = []Mutant{
 		Old: "\t\tif opts.Depth > 0 && current.Depth == opts.Depth {\n\t\t\taddRoot(currentKey, currentNode)\n\t\t\tcontinue\n\t\t}", New: "\t\tif opts.Depth > 0 && current.Depth == opts.Depth {\n\t\t\tcontinue\n\t\t}", Expect: "C03.R1.find-roots-shape|~.findRoots|cut-off-records-root"},
 	{Name: "push-same-depth", File: "extendedcopy.go",
 		Old: "stack.Push(copyutil.NodeInfo{Node: predecessor, Depth: current.Depth + 1})", New: "stack.Push(copyutil.NodeInfo{Node: predecessor, Depth: current.Depth})", Expect: "C03.R1.find-roots-shape|~.findRoots|pushed-depth"},
+	{Name: "lookup-asks-about-start-node", File: "extendedcopy.go",
+		Old: "predecessors, err := opts.FindPredecessors(ctx, storage, currentNode)", New: "predecessors, err := opts.FindPredecessors(ctx, storage, node)", Expect: "C03.R1.find-roots-shape|~.findRoots|predecessor-lookup"},
+	{Name: "initial-depth-one", File: "extendedcopy.go",
+		Old: "stack.Push(copyutil.NodeInfo{Node: node, Depth: 0})", New: "stack.Push(copyutil.NodeInfo{Node: node, Depth: 1})", Expect: "C03.R1.find-roots-shape|~.findRoots|initial-push-depth-0"},
+	{Name: "only-first-root-dispatched", File: "extendedcopy.go",
+		Old: "\t\treturn region.Start()\n\t}, roots...)", New: "\t\treturn region.Start()\n\t}, roots[:1]...)", Expect: "C03.R2.shared-copy-state|~.ExtendedCopyGraph|dispatches-found-roots"},
 	{Name: "per-root-tracker", File: "extendedcopy.go",
 		Old: "\t// track content status\n\ttracker := status.NewTracker()\n\n\t// copy the sub-DAGs rooted by the root nodes\n\treturn syncutil.Go(ctx, limiter, func(ctx context.Context, region *syncutil.LimitedRegion, root ocispec.Descriptor) error {\n",
 		New: "\t// copy the sub-DAGs rooted by the root nodes\n\treturn syncutil.Go(ctx, limiter, func(ctx context.Context, region *syncutil.LimitedRegion, root ocispec.Descriptor) error {\n\t\ttracker := status.NewTracker()\n", Expect: "C03.R2"},
